@@ -288,6 +288,37 @@ func C08(r *eng.Run) {
 		}
 	})
 	r.Phase("A2 package functions, specials", t0, nil)
+
+	// R: values reached by operation sequences (whatever encoding the library returned), every cutting dp
+	rs := reachedAll(r)
+	if !r.Thorough() {
+		rs = strideBits(rs, 12000)
+	}
+	reachedPhase(r, "R values reached by operation sequences", rs, func(w *eng.W, b ref.Bits, v ref.Val) {
+		L := ref.NumDigits(v.C)
+		d := D(b)
+		for dp := -(v.Q + L) - 2; dp <= -v.Q+2; dp++ {
+			for m := 0; m < 6; m++ {
+				checkRound(w, b, v, dp, m)
+			}
+			checkCeilFloor(w, b, v, dp, true)
+			checkCeilFloor(w, b, v, dp, false)
+		}
+		w1, _ := roundWant(v, 0, 1)
+		w2, _ := roundWant(v, 0, 2)
+		w3, _ := ceilFloorWant(v, 0, true)
+		w4, _ := ceilFloorWant(v, 0, false)
+		for _, pr := range []struct {
+			n string
+			g dec.Decimal
+			w ref.Val
+		}{{"Round(pkg)", dec.Round(d), w1}, {"Trunc(pkg)", dec.Trunc(d), w2}, {"Ceil(pkg)", dec.Ceil(d), w3}, {"Floor(pkg)", dec.Floor(d), w4}} {
+			if !Same(B(pr.g), pr.w) {
+				w.R.Fail(eng.Case{Op: pr.n, Args: []string{b.Hex()}, Got: V(pr.g).String(), Want: pr.w.String(), Note: "d=" + v.String()})
+			}
+		}
+		w.EvalN(4)
+	})
 	for m := 0; m < 6; m++ {
 		r.Require("Round/"+ref.ModeNames[m]+"/g5", "Round/"+ref.ModeNames[m]+"/g5+", "Round/"+ref.ModeNames[m]+"/g0+/tiny0", "Round/"+ref.ModeNames[m]+"/g6-9*")
 	}
